@@ -738,3 +738,22 @@ def search_loops(f):
     g2 = dataclasses.replace(f)
     g2.node = node
     return g2
+
+
+def additive_terms(e: ast.AST) -> list[tuple[int, str]]:
+    """signed terms of a sum / difference, order-free: `4 - abs(x) - y` -> [(-1,'abs(x)'), (-1,'y'), (1,'4')]"""
+    out = []
+
+    def walk(x, sign):
+        if isinstance(x, ast.BinOp) and isinstance(x.op, (ast.Add, ast.Sub)):
+            walk(x.left, sign)
+            walk(x.right, sign if isinstance(x.op, ast.Add) else -sign)
+        elif isinstance(x, ast.UnaryOp) and isinstance(x.op, ast.USub):
+            walk(x.operand, -sign)
+        elif isinstance(x, ast.UnaryOp) and isinstance(x.op, ast.UAdd):
+            walk(x.operand, sign)
+        else:
+            out.append((sign, ast.unparse(x)))
+
+    walk(e, 1)
+    return sorted(out)
